@@ -9,7 +9,7 @@ use num_bigint::ToBigInt;
 use crate::classic::clvm::__type_compatibility__::bi_one;
 
 use crate::compiler::clvm::{run, truthy};
-use crate::compiler::compiler::is_at_capture;
+use crate::compiler::compiler::{do_desugar, is_at_capture};
 use crate::compiler::comptypes::{
     fold_m, join_vecs_to_string, list_to_cons, Binding, BindingPattern, BodyForm, CallSpec,
     Callable, CompileErr, CompileForm, CompiledCode, CompilerOpts, ConstantKind, DefunCall,
@@ -673,7 +673,10 @@ pub fn do_mod_codegen(
         &mut throwaway_symbols,
         optimizer,
     );
-    let code = codegen(&mut context_wrapper.context, without_env, program)?;
+    // The program of a (mod ...) expression comes straight from frontend():
+    // its let forms have not been turned into helper functions yet.
+    let desugared = do_desugar(program)?;
+    let code = codegen(&mut context_wrapper.context, without_env, &desugared)?;
     Ok(CompiledCode(
         program.loc.clone(),
         Rc::new(SExp::Cons(
